@@ -37,6 +37,45 @@ type Loader struct {
 	// performs the nested load of the location under test.  The request is by
 	// construction not the true location of that loader file.
 	HopReq string
+	// SeqPre is set for sequence contexts (Layout.Seqs): Spelled is then a
+	// sequence file (`(verif:probe 'TAG)` followed by one of the SeqShapes
+	// forms), a file whose top-level form hands a LIST of locations to a
+	// builtin that calls load-file (or a host include builtin) back once per
+	// element.  SeqPre are the elements loaded before the last one, spelled
+	// relative to the sequence file's directory; each denotes a plain marker
+	// file inside the root (their probes are part of Chain).  The last element
+	// is the location under test (HopReq empty: the sequence file itself is the
+	// loading file) or HopReq (the request reaching a loader file, which then
+	// loads the location under test).  The earlier loads must not change the
+	// directory the later ones resolve against.
+	SeqPre   []string
+	SeqShape string
+}
+
+// SeqShape is one way a file loads a sequence of locations: Form is the
+// top-level form of the sequence file.  (verif:c20-seq) yields the list of
+// locations, (verif:c20-seq-next) the next one of them; verif:c20-include is
+// a host Go builtin calling a LoadFile entry point of the environment it was
+// handed, verif:c20-include-acc the same with an accumulator argument first.
+type SeqShape struct {
+	Name    string
+	Form    string
+	Include bool // the loads are made by the host include builtin
+	NPre    int  // > 0: the form performs exactly NPre+1 loads
+}
+
+// SeqShapes lists the sequence-file shapes.
+var SeqShapes = []SeqShape{
+	{Name: "map-list", Form: "(map 'list load-file (verif:c20-seq))"},
+	{Name: "map-vector", Form: "(map 'vector load-file (verif:c20-seq))"},
+	{Name: "select", Form: "(select 'list load-file (verif:c20-seq))"},
+	{Name: "reject", Form: "(reject 'list load-file (verif:c20-seq))"},
+	{Name: "map-include", Form: "(map 'list verif:c20-include (verif:c20-seq))", Include: true},
+	{Name: "foldl-include", Form: "(foldl verif:c20-include-acc () (verif:c20-seq))", Include: true},
+	{Name: "foldl-lambda", Form: "(foldl (lambda (acc x) (load-file x)) () (verif:c20-seq))"},
+	{Name: "dotimes-funcall", Form: "(let ([s (verif:c20-seq)]) (dotimes (i (length s)) (funcall load-file (nth s i))))"},
+	{Name: "map-lambda-apply", Form: "(map 'list (lambda (x) (apply load-file (list x))) (verif:c20-seq))"},
+	{Name: "forms", Form: "(load-file (verif:c20-seq-next)) (load-file (verif:c20-seq-next))", NPre: 1},
 }
 
 // RootSpec is one way to name the root directory in a configuration.
@@ -58,7 +97,11 @@ type Layout struct {
 	Loaders []Loader
 	// Hops are the contexts in which the loader file is itself loaded from a
 	// running file with a relative request (interpreter entry points only).
-	Hops   []Loader
+	Hops []Loader
+	// Seqs are the contexts in which the loading file loads several locations
+	// in a row through callbacks of a builtin, the location under test (or the
+	// request reaching the loader file) last (interpreter entry points only).
+	Seqs   []Loader
 	Secret string   // token contained in a non-lisp outside file
 	Starts []string // sandbox-relative directories location enumeration starts from
 	// Plain layouts carry `"MARKER"` as file content (no probe builtins): for
@@ -104,12 +147,104 @@ func (l *Layout) hopFile(dir string) string {
 	return m
 }
 
+// SeqPrefix starts the file names of the sequence files (not listed by the
+// location enumeration either).
+const SeqPrefix = "c20seq-"
+
+// seqFile adds the sequence file of directory dir and shape sh (once) and
+// returns its path and marker.
+func (l *Layout) seqFile(dir string, sh SeqShape) (string, string) {
+	rel := join(dir, SeqPrefix+sh.Name+".lisp")
+	if n := l.Tree.Lookup(rel); n != nil {
+		return rel, n.Marker
+	}
+	m := l.marker("seq_" + rel)
+	l.Tree.AddFile(rel, m, fmt.Sprintf("(verif:probe '%s) %s\n", m, sh.Form))
+	return rel, m
+}
+
+// buildSeqs fills l.Seqs.  ldirs are the loader directories, loaders[i] the
+// plain loader file of ldirs[i], inFiles the plain marker files inside the
+// root (sandbox-relative, reached without links).  No PRNG: the contexts are
+// a function of the layout.
+//
+// Per directory d the earlier loads ("pre-lists") are taken from the marker
+// files of OTHER directories (rotated per directory), alone, in pairs, and
+// mixed with a marker file of d itself (before: the last earlier load is still
+// elsewhere; after: control, the last earlier load is in d).  Every shape
+// meets every pre-list with the location under test as the last element; and
+// for every ordered pair of loader directories (dx, dy) two shapes load
+// [pre-list of dx..., request reaching dy's loader file], the loader file then
+// loading the location under test.
+func (l *Layout) buildSeqs(ldirs []string, loaders []Loader, inFiles []string) {
+	for i, d := range ldirs {
+		var others, same []string
+		for _, f := range inFiles {
+			if dirOf(f) == d {
+				same = append(same, f)
+			} else {
+				others = append(others, f)
+			}
+		}
+		if len(others) == 0 {
+			continue
+		}
+		rot := func(k int) string { return others[(i+k)%len(others)] }
+		pre := [][]string{{rot(0)}}
+		if len(others) > 1 {
+			pre = append(pre, []string{rot(1)}, []string{rot(1), rot(0)})
+		}
+		if len(same) > 0 {
+			pre = append(pre, []string{same[0], rot(len(others) - 1)}, []string{rot(0), same[0]})
+		}
+		lab := strings.TrimPrefix(loaders[i].Label, "ldr-")
+		mk := func(sh SeqShape, k int) (Loader, bool) {
+			ps := pre[k%len(pre)]
+			if sh.NPre > 0 && len(ps) != sh.NPre {
+				if k >= len(pre) {
+					ps = pre[0]
+				} else {
+					return Loader{}, false
+				}
+			}
+			rel, m := l.seqFile(d, sh)
+			ld := Loader{Spelled: rel, Chain: []string{m}, CtxDirs: []string{d}, SeqShape: sh.Name}
+			for _, f := range ps {
+				ld.SeqPre = append(ld.SeqPre, RelPath(d, f))
+				ld.Chain = append(ld.Chain, l.Tree.Lookup(f).Marker)
+			}
+			return ld, true
+		}
+		for _, sh := range SeqShapes {
+			for k := range pre {
+				if ld, ok := mk(sh, k); ok {
+					ld.Label = fmt.Sprintf("seq-%s:%s:p%d", lab, sh.Name, k)
+					l.Seqs = append(l.Seqs, ld)
+				}
+			}
+		}
+		for j, dy := range ldirs {
+			y := loaders[j]
+			for _, si := range []int{i*len(ldirs) + j, i*len(ldirs) + j + 4} {
+				sh := SeqShapes[si%len(SeqShapes)]
+				ld, _ := mk(sh, len(pre)+i+j)
+				ld.Label = fmt.Sprintf("seqhop-%s>%s:%s", lab, strings.TrimPrefix(y.Label, "ldr-"), sh.Name)
+				ld.Chain = append(ld.Chain, y.Chain...)
+				ld.CtxDirs = y.CtxDirs
+				ld.InnerSpelled = y.Spelled
+				ld.HopReq = RelPath(d, join(dy, "ldr.lisp"))
+				l.Seqs = append(l.Seqs, ld)
+			}
+		}
+	}
+}
+
 // listed is the directory listing the location enumeration works from.
 func listed(n *fsmodel.Node) []string {
 	kids := n.SortedKids()
 	out := kids[:0:0]
 	for _, k := range kids {
-		if k != HopName {
+		if k != HopName && !strings.HasPrefix(k, SeqPrefix) {
 			out = append(out, k)
 		}
 	}
@@ -333,6 +468,8 @@ func buildFixed(base string, variant int, plain bool) *Layout {
 		l.hop("hop-deep>sub-via-filelink", "", in("sub/deep"), h3, "../../lk_ldr", ldSub, []string{R, in("sub")})
 		// the hop file itself reached through a directory link
 		l.hop("hop-linked-sub>deep", in("ld_in/"+HopName), in("sub"), h2, "deep/ldr.lisp", ldDeep, []string{in("ld_in/deep"), in("sub/deep")})
+		l.buildSeqs([]string{R, in("sub"), in("sub/deep")}, l.Loaders[:3],
+			[]string{in("a.lisp"), in("sub/b.lisp"), in("sub/deep/c.lisp"), in("..x/d.lisp")})
 	}
 	l.finish(Rlink, Rl2)
 	l.Starts = uniq([]string{R, in("sub/deep"), l.CwdRel, ""})
@@ -420,6 +557,7 @@ func buildRandom(base string, variant int, r *fw.RNG) *Layout {
 		}
 	}
 	addFiles(inDirs)
+	inFiles := append([]string(nil), all[len(inDirs)+len(outDirs):]...)
 	addFiles(outDirs)
 	l.Secret = "c20secret7f3a91"
 	t.AddFile("out/secret.txt", "", l.Secret+" ((( not lisp \"\n")
@@ -507,6 +645,7 @@ func buildRandom(base string, variant int, r *fw.RNG) *Layout {
 	for _, ld := range l.Loaders[len(ldirs):] {
 		l.hop("hop-0>"+strings.TrimPrefix(ld.Label, "ldr-"), "", R, hm[0], RelPath(R, ld.Spelled), ld, ld.CtxDirs)
 	}
+	l.buildSeqs(ldirs, l.Loaders[:len(ldirs)], inFiles)
 	return l
 }
 
